@@ -27,6 +27,9 @@ CODES = {
     8: ("model", "content of a mutable ballot differs from the model of its insertion history"),
     9: ("model", "entries of the multiprofile (keys, order, counts) differ from Model/Profiles.v"),
     10: ("model", "items of a frozen ballot differ from Model/Ballots.v"),
+    11: ("oracle", "multiplicity(frozen ballot) differs from the number of inserted ballots that are == to it "
+                   "(counting by the implementation's own ==)"),
+    14: ("model", "== between directly constructed FrozenApprovalBallots differs from tuple equality (Model/Ballots.v)"),
     core.RAISED: ("oracle", "building the ballots / multiprofile raised"),
 }
 RULE = ("1..7 ballots of one of the four types over 2..6 projects, drawn from 1..3 content templates and built by "
@@ -38,6 +41,8 @@ RULE = ("1..7 ballots of one of the four types over 2..6 projects, drawn from 1.
         "TEMPORARIES built on the fly; in 60 % of the cases ballots that were already frozen / inserted are EDITED IN "
         "PLACE (same Python object, every mutator of the class: add/update/|=/discard/remove/-=, b[p]=s/update/|=/"
         "setdefault/pop/del/popitem/clear, append) and frozen / extended / converted again, incl. edit-and-revert; "
+        "every fifth case builds the Frozen* classes DIRECTLY (from lists / tuples / dicts given in different orders, from "
+        "other frozen ballots, from mutable ballots) and mixes them with ordinary ballots; "
         "every case executed in separate interpreters under each PYTHONHASHSEED of the tier, project "
         "names re-drawn per case; non-trivial = some content inserted at least twice through different histories")
 ASSUMPTIONS = [
@@ -99,7 +104,68 @@ def _noise(rng, kind, hist, content, nproj):
     return hist
 
 
+# FrozenApprovalBallot(approval_ballot) (not .frozen()) freezes in SET-ITERATION order on HEAD: hash-seed dependent and
+# unequal to ballot.frozen() (reported); generated only once that is settled
+FROZEN_APP_FROM_SET_OK = False
+
+
+def gen_direct(rng, i, tier):
+    """frozen ballots that never went through Ballot.frozen(): every Frozen* class built directly from sequences /
+    dicts given in different orders, from other frozen ballots and from mutable ballots, mixed with ordinary ballots"""
+    kind = KINDS[i % 4]
+    nproj = rng.choice([2, 3, 4, 5])
+    temps = []
+    for _ in range(rng.choice([1, 2, 2])):
+        ps = rng.sample(range(nproj), rng.randrange(2, nproj + 1))
+        temps.append([[p, rng.choice(SCORES) if kind in ("card", "cum") else "0/1"] for p in ps])
+    ballots = []
+    for j in range(rng.choice([2, 3, 4, 5, 6])):
+        content = list(rng.choice(temps))
+        r = rng.random()
+        if r < 0.3:
+            pass                                   # the template's own order
+        elif r < 0.6:
+            content = sorted(content)              # name order (what ApprovalBallot.frozen() produces)
+        else:
+            rng.shuffle(content)
+        hist = [["+", p, sc] for p, sc in content]
+        b = {"hist": hist, "ctor": len(hist), "name": rng.choice([j + 1, j + 1, 0]), "meta": rng.choice([0, 0, 1, 2, 3]),
+             "numrep": rng.choice(["int", "mpq", "frac"])}
+        if rng.random() < 0.75:
+            modes = ["seq", "seq", "frozen"] + (["mutable"] if kind != "app" or FROZEN_APP_FROM_SET_OK else [])
+            b["direct"] = rng.choice(modes)
+            b["seqtype"] = rng.choice(["list", "tuple"])
+        ballots.append(b)
+    nb = len(ballots)
+    pool = list(range(nb)) + [rng.randrange(nb) for _ in range(rng.choice([0, 1, 2, 4]))]
+    rng.shuffle(pool)
+    ops = []
+    k = 0
+    if rng.random() < 0.4:
+        k = rng.randrange(0, len(pool) + 1)
+        ops.append(["init", pool[:k]])
+    while k < len(pool):
+        t = rng.choice(["append", "extend", "extend_frozen", "update_frozen"])
+        if t == "append":
+            ops.append(["append", pool[k]])
+            k += 1
+        else:
+            n = rng.randrange(1, len(pool) - k + 1)
+            ops.append([t, pool[k:k + n]])
+            k += n
+    _decorate_ops(rng, ops)
+    for op in ops:
+        # plain 'extend' of a mix freezes the mutable ones and takes the frozen ones as they are; no temporaries of
+        # another class here
+        if op[0] == "extend" and len(op) > 2:
+            op[2] = op[2].split("+")[0]
+    return {"kind": kind, "nproj": nproj, "prefix": rng.choice(["p", "q", "zz", "Proj_"]), "ballots": ballots, "ops": ops,
+            "fresh_projects": rng.random() < 0.5, "tier": tier, "direct_case": True}
+
+
 def gen(rng, i, tier):
+    if i % 5 == 4:
+        return gen_direct(rng, i // 5, tier)
     kind = KINDS[i % 4]
     nproj = rng.choice([2, 3, 3, 4, 4, 5, 6])
     prefix = rng.choice(["p", "q", "proj", "x", "zz", "A", "b_", "k9", "Proj_"]) + rng.choice(["", "", "a", "7", "-"])
@@ -360,7 +426,32 @@ def _op(op):
     return "OpExtend %s" % natl(op[1])
 
 
+def _as_tuples(case, o):
+    """An approval case that contains DIRECTLY constructed FrozenApprovalBallots is rendered with the tuple semantics
+    of the class (KOrd in the model: a tuple of projects compared position by position, hashed as a tuple): a direct
+    ballot is its sequence, a mutable ballot is the name-sorted tuple that ApprovalBallot.frozen() produces."""
+    import copy as _copy
+    case = _copy.deepcopy(case)
+    o = _copy.deepcopy(o)
+    case["kind"] = "ord"
+    for j, b in enumerate(case["ballots"]):
+        if not b.get("direct"):
+            d = {}
+            for h in b["hist"]:
+                if h[0] == "+":
+                    d[h[1]] = 1
+                else:
+                    d.pop(h[1], None)
+            b["hist"] = [["+", p_, "0/1"] for p_ in sorted(d)]
+            for s in o["per_seed"]:
+                s["iter"][j] = sorted(s["iter"][j])
+    return case, o
+
+
 def coq_case(case, o):
+    direct = case["kind"] == "app" and any(b.get("direct") for b in case["ballots"])
+    if direct:
+        case, o = _as_tuples(case, o)
     ballots = lst(["mkB %s %s %s" % (lst(b["hist"], _step), core.nat(b["name"]), core.nat(b["meta"]))
                    for b in case["ballots"]])
     obs = []
@@ -370,12 +461,18 @@ def coq_case(case, o):
             lst([pair(_dict(k), core.nat(c)) for k, c in s["entries"]]),
             lst([lst(r, boolc) for r in s["eq"]]), lst([lst(r, boolc) for r in s["heq"]]),
             lst([pair(_dict(f[0]), core.nat(f[1] if s["frozen_type_ok"] else 998), core.nat(f[2])) for f in s["frozen"]])))
-    return "(mkCase %s %s %s %s)" % (KCOQ[case["kind"]], ballots, lst(case["ops"], _op), lst(obs))
+    return "(mkCase %s %s %s %s %s)" % (KCOQ[case["kind"]], ballots, lst(case["ops"], _op), lst(obs), boolc(direct))
 
 
 # ------------------------------------------------------------------------------------------------
 # evidence
 # ------------------------------------------------------------------------------------------------
+def _content_of(case, b):
+    if b.get("direct") and case["kind"] == "app":
+        return ("t", tuple(h[1] for h in b["hist"]))
+    return _content(case["kind"], b["hist"])
+
+
 def _content(kind, hist):
     d = {}
     for h in hist:
@@ -402,8 +499,8 @@ def _merged(case):
     seen = {}
     for i in _inserted(case):
         b = case["ballots"][i]
-        c = _content(case["kind"], b["hist"])
-        key = json.dumps([b["hist"], b["ctor"]])
+        c = _content_of(case, b)
+        key = json.dumps([b["hist"], b["ctor"], b.get("direct")])
         seen.setdefault(c, set()).add(key)
     return any(len(v) >= 2 for v in seen.values())
 
@@ -418,7 +515,8 @@ def stats(cases, obs):
     d = {"kind": {}, "first_op": {}, "merged_different_histories": 0, "len_lt_num": 0, "has_empty_ballot": 0,
          "has_deletion": 0, "history_len_hist": {}, "max_multiplicity_ge3": 0, "uninserted_ballot_queried": 0,
          "seeds": list(SEEDS["quick"]), "set_iteration_differs_between_seeds": 0,
-         "iterable_kind": {}, "cases_with_edit_after_freeze": 0, "edited_versions": 0, "edit_then_refreeze_same_content": 0,
+         "iterable_kind": {}, "direct_frozen_construction_cases": 0, "direct_frozen_ballots": {},
+         "direct_approval_same_set_different_order": 0, "cases_with_edit_after_freeze": 0, "edited_versions": 0, "edit_then_refreeze_same_content": 0,
          "set_iteration_differs_between_equal_ballots": 0}
     for c, o in zip(cases, obs):
         if not isinstance(o, dict) or "per_seed" not in o:
@@ -435,6 +533,14 @@ def stats(cases, obs):
         for op in c["ops"]:
             if op[0] != "append" and len(op) > 2:
                 d["iterable_kind"][op[2]] = d["iterable_kind"].get(op[2], 0) + 1
+        dl = [b for b in c["ballots"] if b.get("direct")]
+        d["direct_frozen_construction_cases"] += bool(dl)
+        for b in dl:
+            d["direct_frozen_ballots"][b["direct"]] = d["direct_frozen_ballots"].get(b["direct"], 0) + 1
+        if c["kind"] == "app" and dl:
+            seqs = [tuple(h[1] for h in b["hist"]) for b in dl]
+            d["direct_approval_same_set_different_order"] += any(
+                a != b_ and sorted(a) == sorted(b_) for a in seqs for b_ in seqs)
         vs = [b for b in c["ballots"] if b.get("base") is not None]
         d["cases_with_edit_after_freeze"] += bool(vs)
         d["edited_versions"] += len(vs)
